@@ -47,7 +47,8 @@ XalanSourceTreeDocumentFragment::XalanSourceTreeDocumentFragment(MemoryManager& 
     XalanDocumentFragment(),
     m_manager(theManager),
     m_ownerDocument(&theOwnerDocument),
-    m_firstChild(0)
+    m_firstChild(0),
+    m_index(theOwnerDocument.reserveNextIndexValue())
 {
 }
 
@@ -190,7 +191,7 @@ XalanSourceTreeDocumentFragment::getLocalName() const
 bool
 XalanSourceTreeDocumentFragment::isIndexed() const
 {
-    return false;
+    return true;
 }
 
 
@@ -198,7 +199,7 @@ XalanSourceTreeDocumentFragment::isIndexed() const
 XalanSourceTreeDocumentFragment::IndexType
 XalanSourceTreeDocumentFragment::getIndex() const
 {
-    return 0;
+    return m_index;
 }
 
 
